@@ -11,6 +11,9 @@ mod fam_pg;
 mod fam_exitwait;
 mod fam_registry;
 mod fam_suptree;
+mod fam_outport;
+mod fam_rpc;
+mod fam_timer;
 mod tdrv;
 mod hctl;
 mod trace;
@@ -71,6 +74,9 @@ fn main() {
         fam_exitwait::dispatch,
         fam_registry::dispatch,
         fam_suptree::dispatch,
+        fam_timer::dispatch,
+        fam_rpc::dispatch,
+        fam_outport::dispatch,
     ];
     for f in fams {
         if let Some(summary) = f(&cmd, &a) {
